@@ -85,6 +85,8 @@ def run(res, b, tier, seed):
         cases.append(("corpus:" + name, src, exp, err))
     for src, exp in gen_lex.directed_sequences():
         cases.append(("directed", src, exp, False))
+    for src in gen_lex.unknown_character_sources():
+        cases.append(("unknown-character", src, None, True))
     for _ in range(nseq):
         src, exp = gen_lex.gen_sequence(rng, rng.choice([3, 8, maxtok]))
         cases.append(("seq", src, exp, False))
